@@ -1218,6 +1218,70 @@ example :
   rfl
 
 
+/-- **A reused (user-supplied) request pool.**  The pool of a `PooledJSONRPCServer` may be a `ThreadPool` the user owns: it
+    has served an earlier server, that server's `server_close()` — or the user — has stopped it (with requests in flight,
+    queued, or none), the user has called `start()` again and hands it to this server (or the same server goes on with it).
+    Such a pool is in a state `ps'` reachable from a state `ps` that the earlier life cycles have reached; the abstraction of
+    the pool that `JRV.Model.ServerLife` uses (`C12_pool_instantiation`: a handler task begins at most once, `task.begin` /
+    `task.end` are the `handlerStart` / handler-ending steps, after `stop()` no worker is alive and no handler can begin) holds
+    in `ps'` exactly as in a pool constructed for this server — for any number of earlier stop/start cycles, any pool size,
+    any interleaving.  With `C11_restart` (at the return of `stop()` flag, counters, `_threads`, queue and unfinished count are
+    those of a new pool, no sentinel is left: the pool that `start()` then sees *is* a fresh one) this is why each life cycle
+    of a reused pool is the life cycle of `ServerLife` from `init`; harness/props/c12.py runs such histories on the real
+    code (`reuse` chains, `poolcycle`; stage 2: programs with `again`) and compares each life cycle with the model. -/
+theorem C12_pool_reuse (cfg : JRV.Pool.Config) (n : Nat) (ps ps' : JRV.Pool.State)
+    (hr : JRV.Pool.Reach (JRV.Pool.init cfg n) ps) (hr' : JRV.Pool.Reach ps ps') :
+    JRV.Pool.Reach (JRV.Pool.init cfg n) ps' ∧
+    (∀ (t : Nat) (tk : JRV.Pool.Task), ps'.tasks[t]? = some tk → tk.execCount ≤ 1) ∧
+    (∀ j w ps'', ps'.workers[j]? = some w → w.pc = .begin → JRV.Pool.step? ps' ⟨.worker j, .taskBegin, false⟩ = some ps'' →
+      ∃ t tk tk', w.held = some t ∧ ps'.tasks[t]? = some tk ∧ ps''.tasks[t]? = some tk' ∧
+        viewOfTask tk = ⟨false, false⟩ ∧ viewOfTask tk' = ⟨true, false⟩) ∧
+    (∀ j w o ps'', ps'.workers[j]? = some w → w.pc = .body → JRV.Pool.step? ps' ⟨.worker j, .taskEnd o, false⟩ = some ps'' →
+      ∃ t tk tk', w.held = some t ∧ ps'.tasks[t]? = some tk ∧ ps''.tasks[t]? = some tk' ∧
+        viewOfTask tk = ⟨true, false⟩ ∧ viewOfTask tk' = ⟨true, true⟩) ∧
+    (cfg.singleCtl = true → ps'.stop = true →
+      (∀ c, ps'.clients[0]? = some c → (match c.pc with
+          | .stopAcq | .stopPut _ | .stopRel _ | .stopAlive _ | .stopJoin _ | .stopAlive2 _ => False | _ => True)) →
+      (∀ (j : Nat) (w : JRV.Pool.Worker), ps'.workers[j]? = some w → w.pc = .dead) ∧
+      (∀ (j : Nat) (op : JRV.Pool.Op) (tmo : Bool), JRV.Pool.step? ps' ⟨.worker j, op, tmo⟩ = none) ∧
+      (∀ (t : Nat) (tk : JRV.Pool.Task), ps'.tasks[t]? = some tk →
+        (!(viewOfTask tk).started || (viewOfTask tk).done) = true)) := by
+  have hreach : JRV.Pool.Reach (JRV.Pool.init cfg n) ps' := by
+    induction hr' with
+    | refl => exact hr
+    | step a _ hs ih => exact JRV.Pool.Reach.step a ih hs
+  exact ⟨hreach, C12_pool_instantiation cfg n ps' hreach⟩
+
+/- Non-vacuity: the pool (1, 0) of the example above — one handler task served, the worker retired, `stop()` returned —
+   is started again (`start()`: flag cleared, empty queue, no worker since min_threads = 0) and handed a second handler task:
+   `enqueue` starts worker 1 (the accounting is that of a new pool), which takes the task and stands at `task.begin`
+   (hypotheses of clause 1 in the restarted pool); worker 0 stays dead, the first connection has replied. -/
+example :
+    (JRV.Pool.run (JRV.Pool.init { max := 1, min := 0, qbound := 0 } 1)
+          [⟨.client 0, .callStart, false⟩, ⟨.client 0, .eventIsSet, false⟩, ⟨.client 0, .eventClear, false⟩,
+           ⟨.client 0, .queueQsize, false⟩, ⟨.client 0, .callEnqueue, false⟩, ⟨.client 0, .lockAcquire, false⟩,
+           ⟨.client 0, .queuePut, false⟩, ⟨.client 0, .lockAcquire, false⟩, ⟨.client 0, .eventIsSet, false⟩,
+           ⟨.client 0, .lockRelease, false⟩, ⟨.client 0, .lockRelease, false⟩,
+           ⟨.worker 0, .eventIsSet, false⟩, ⟨.worker 0, .queueGet, false⟩, ⟨.worker 0, .lockAcquire, false⟩,
+           ⟨.worker 0, .lockRelease, false⟩, ⟨.worker 0, .taskBegin, false⟩, ⟨.worker 0, .taskEnd .ok, false⟩,
+           ⟨.worker 0, .futSet, false⟩, ⟨.worker 0, .queueTaskDone, false⟩, ⟨.worker 0, .lockAcquire, false⟩,
+           ⟨.worker 0, .lockRelease, false⟩, ⟨.worker 0, .lockAcquire, false⟩, ⟨.worker 0, .lockRelease, false⟩,
+           ⟨.worker 0, .lockAcquire, false⟩, ⟨.worker 0, .lockRelease, false⟩,
+           ⟨.client 0, .callStop, false⟩, ⟨.client 0, .eventIsSet, false⟩, ⟨.client 0, .eventSet, false⟩,
+           ⟨.client 0, .lockAcquire, false⟩, ⟨.client 0, .lockRelease, false⟩, ⟨.client 0, .lockAcquire, false⟩,
+           ⟨.client 0, .queueGetNowait, false⟩, ⟨.client 0, .queueJoin, false⟩, ⟨.client 0, .lockRelease, false⟩,
+           -- the user starts the pool again; the next server hands it a handler task
+           ⟨.client 0, .callStart, false⟩, ⟨.client 0, .eventIsSet, false⟩, ⟨.client 0, .eventClear, false⟩,
+           ⟨.client 0, .queueQsize, false⟩, ⟨.client 0, .callEnqueue, false⟩, ⟨.client 0, .lockAcquire, false⟩,
+           ⟨.client 0, .queuePut, false⟩, ⟨.client 0, .lockAcquire, false⟩, ⟨.client 0, .eventIsSet, false⟩,
+           ⟨.client 0, .lockRelease, false⟩, ⟨.client 0, .lockRelease, false⟩,
+           ⟨.worker 1, .eventIsSet, false⟩, ⟨.worker 1, .queueGet, false⟩, ⟨.worker 1, .lockAcquire, false⟩,
+           ⟨.worker 1, .lockRelease, false⟩]).map
+        (fun s => (s.stop, s.clients.map (·.pc), s.workers.map (·.pc), s.queue.length, s.tasks.map (viewOfTask)))
+      = some (false, [.idle], [.dead, .begin], 0, [⟨true, true⟩, ⟨false, false⟩]) := by
+  rfl
+
+
 /- Non-vacuity: serve, accept two connections, close while one request is in flight (the other one still queued is
    dropped by `pool.stop()`). -/
 example : ((run {} (fun _ b => b + 100) init
